@@ -123,7 +123,7 @@ claim('C10',
 claim('C17',
   text='Decoder half: theorems for ALL NUL-terminated inputs - the buffer-level models of qurl_decode/qbase64_decode/qhex_decode (whole buffer incl. terminator, a read outside it = Crash, explicit fuel) return Ok with fuel |s|+1 whatever follows the terminator, equal the string-level decoders and yield at most |s| bytes '
        '(C17_url/hex/b64_decode_safe); truncated %-escapes and odd-length hex, which the pinned code read past, were repaired in /repo. Tie: all strings up to length 5/6 over each format\'s significant alphabet plus random/damaged inputs, in exact-size buffers ending at an inaccessible page, under a watchdog, '
-       'compared with the extracted model. Parser half (INI-style and Apache-style parsers): see the notes of work package c20 when merged.',
+       'compared with the extracted model. Parser half: for every input the INI-style parser model (line split, trim, section rewrite, ${} expansion with the round bound added in /repo) delivers a result - Crash and Fuel unreachable, no hypotheses (C17_ini_parse_safe, C17_ini_expand_safe; C17_ini_expand_unbounded_refuted shows why the bound is needed); the Apache-style tokenizer reads nothing past the terminator and needs at most |line|+1 steps (C17_aconf_tokenize_safe) and the parser is total with fuel |file|+2 (C17_aconf_parse_total). Tie: all strings up to length 4-5 over each format\'s significant alphabet and mutated documents through guard-page, ASan+UBSan and -O0 builds under a watchdog. Known finding (not repaired): unbounded section nesting puts a 4 KiB buffer per level on the stack (crash beyond ~1000 levels).',
   note='Partial by nature: stack depth, file handling and fgets chunking are runtime behaviour outside the models. Trusted as C16.',
   technique='Rocq proof over buffer-level loop models with Crash/Fuel + guard-page differential execution',
   design='5.17')
@@ -169,3 +169,18 @@ claim('C08',
   technique='Rocq refinement proof (invariant + walk lemma over a zipper view of the chain, history induction); bubble-sort proof via adjacent-exchange relation and uniqueness of sorted stable rearrangements; '
             'text round trip on the C16 URL codec lemmas; extracted model + extracted spec correspondence with delta-debugging shrinker',
   design='5.8')
+claim('C20',
+  text='Machine-checked theorems (Coq 8.16, closed under the global context). INI-style parser (qconfig.c): for every well-formed document, every white-space layout, '
+       'separator, environment and command output, parse(render d) = eval d at document level (entries in file order, comments/blank lines ignored, "section." prefixes and marker '
+       'entries, ${name} = last definition so far, ${%ENV}); the parser model is total. Apache-style parser (qaconf.c): tokenize(render words) = words for every mix of bare/single/double '
+       'quoting, escapes and gaps; _is_str_number and _is_str_bool equal the documented grammars (all eight boolean spellings, any letter case); and at document level, for every option table, '
+       'flags, default handler, callback behaviour and every well-formed document tree of nesting depth < 256 whose lines fit the line buffer: parse(render d) has the count, the first offending line '
+       'with its error, and the callback trace (otype, section, sections, level, parent chain, argv with booleans normalised to 1/0) of the reference semantics aconf_srun, whose count is the number of '
+       'directives (aconf_accepts_iff, aconf_count); the depth bound is shown necessary by a witness (level is uint8_t). Both parser models are total. Constants (_VAR*, _MAX_SUBSTITUTIONS, QAC_* bit layout, '
+       'MAX_LINESIZE) are regenerated from the sources on every run; the hand-written models are tied by running the extracted model and the implementation on the same texts '
+       '(well-formed, mutated, hostile) and comparing entries / return value, error line and message, and the full callback trace; the extracted reference semantics (ini_eval, aconf_srun) and well-formedness predicates run as the property monitor on generated documents.',
+  note='Six defects of the pinned code were repaired in fix: commits (C20: false booleans rejected; arguments after the fifth not type-checked; stale section id inside unregistered sections; C17: tokenizer over-read, unbounded ${} expansion, uninitialised pointer freed), '
+       'one is a known finding (level is uint8_t and wraps at depth 256). ${!cmd} is an uninterpreted oracle (popen stubbed to fail in the harness), @INCLUDE is not modelled. '
+       'Trusted: Coq kernel, extraction, gen_consts.py, gcc, harness/h_conf.c, ocaml/d_conf.ml (which also formats the error messages).',
+  technique='Rocq proof by induction (document-level round trip, buffer-level safety with explicit reads), constants translated from source by a compiled probe, extracted-model and extracted-specification correspondence',
+  design='5.20')
